@@ -85,6 +85,15 @@ def base_path(summ):
     return None
 
 
+def structural_paths(summ):
+    """The base path plus the paths that differ from it only in the kind of the current scope ('has' decisions)."""
+    out = []
+    for ps in summ.paths:
+        if ps.raised is None and all((not v) or tag[0] == 'has' for tag, v in ps.decisions):
+            out.append(ps)
+    return out
+
+
 def scope_of_region(ps, region):
     r = ps.regions.get(region)
     return r['scope'] if r else None
@@ -271,6 +280,21 @@ def declaration_records(repo):
 # continuity
 # ---------------------------------------------------------------------------
 
+def owner_cls(root, path):
+    """Class of the node whose field holds the leaf at `path` ('node.body[1].value' -> class of node.body[1])."""
+    import re as _re
+    cur, owner = root, root
+    for fname, idx in _re.findall(r'\.(\w+)(?:\[(\d+)\])?', path[4:]):
+        if cur is None or not getattr(cur, 'fields', None):
+            return None
+        owner = cur
+        v = cur.fields.get(fname)
+        if isinstance(v, list):
+            v = v[int(idx)] if idx != '' and int(idx) < len(v) else None
+        cur = v
+    return getattr(owner, 'cls', None)
+
+
 def continuity_records(repo):
     recs = {}
     for cls, summs in summaries(repo).items():
@@ -299,6 +323,11 @@ def continuity_records(repo):
                                             'line': method_line(repo, cls)})
                 rec['n'] += 1
                 for p, line in dropped:
+                    if owner_cls(s.root, p) in ('Return', 'Raise'):
+                        # nothing follows a return / raise in its block: the region left after its expression has no reader
+                        # there (what the handlers and the finally block of an enclosing try see is the reach rule's subject)
+                        rec.setdefault('exempt', {})[top_field(gen(p))] = 'operand of a statement that leaves the block'
+                        continue
                     if top_field(gen(p)) in pyref.NO_ESCAPING_BINDING:
                         rec.setdefault('exempt', {})[top_field(gen(p))] = pyref.NO_ESCAPING_BINDING[top_field(gen(p))]
                         continue
@@ -326,22 +355,23 @@ def block_records(repo):
             bp = base_path(s)
             if bp is None or bp.raised is not None:
                 continue
-            t = Template(s.root, bp)
-            nodes, succ, unvisited = t.block_graph(blocks)
-            ref_nodes = {'pre': 1, 'after': 1}
-            ref_nodes.update({k: 1 for k in blocks})
-            rmay, rdom = reach_relations(ref_nodes, preds, False)
-            smay, sdom = reach_relations(nodes, succ, True)
-            for a in list(blocks):
-                for b in list(blocks) + ['after']:
-                    if a in unvisited or b in unvisited:
-                        continue
-                    a_out = (a, 'out')
-                    b_in = (b, 'in') if b != 'after' else 'after'
-                    out.append({'cls': cls, 'variant': s.variant, 'a': gen(a), 'b': gen(b),
-                                'ref_may': b in rmay.get(a, ()), 'supp_may': b_in in smay.get(a_out, ()),
-                                'ref_dom': a in rdom.get(b, ()), 'supp_dom': a_out in sdom.get(b_in, ()),
-                                'line': method_line(repo, cls)})
+            for sp in structural_paths(s):
+                t = Template(s.root, sp)
+                nodes, succ, unvisited = t.block_graph(blocks)
+                ref_nodes = {'pre': 1, 'after': 1}
+                ref_nodes.update({k: 1 for k in blocks})
+                rmay, rdom = reach_relations(ref_nodes, preds, False)
+                smay, sdom = reach_relations(nodes, succ, True)
+                for a in list(blocks):
+                    for b in list(blocks) + ['after']:
+                        if a in unvisited or b in unvisited:
+                            continue
+                        a_out = (a, 'out')
+                        b_in = (b, 'in') if b != 'after' else 'after'
+                        out.append({'cls': cls, 'variant': s.variant, 'a': gen(a), 'b': gen(b),
+                                    'ref_may': b in rmay.get(a, ()), 'supp_may': b_in in smay.get(a_out, ()),
+                                    'ref_dom': a in rdom.get(b, ()), 'supp_dom': a_out in sdom.get(b_in, ()),
+                                    'line': method_line(repo, cls)})
     return out
 
 
